@@ -540,7 +540,38 @@ def _reduction_increment(case):
                for ref in asg.rhs.walk(Reference))
 
 
+def _omp_task_collapse(case):
+    """ParallelLoopTrans.apply detaches the loop and only then asks the
+    sub-class for the directive; OMPTaskTrans._directive refuses any
+    'collapse' value that is not None (validate() lets falsy values and
+    valid counts through): the loop is lost."""
+    att = _last(case)
+    opts = att.get("opts")
+    return (att["t"] == "OMPTaskTrans" and isinstance(opts, dict)
+            and "$nondict" not in opts and opts.get("collapse") is not None)
+
+
+def _lfric_bound_identity(case):
+    """LFRicLoop.start_expr / stop_expr build a NEW Reference child on every
+    access: a refused attempt whose target is such a bound child finds its
+    target detached afterwards although the tree content is identical
+    (only the 'parent' oracle, only LFRic loop bounds)."""
+    if case.get("kind") != "psy" or case.get("api") != C.LFRIC or \
+            case.get("facts", {}).get("oracle", "parent") != "parent":
+        return False
+    from psyclone.domain.lfric import LFRicLoop
+    env = C.env_from(case)
+    env.fresh()
+    for idx in _last(case)["target"]["i"]:
+        node = env.nodes[idx]
+        if isinstance(node.parent, LFRicLoop) and node.position < 2:
+            return True
+    return False
+
+
 CLASSIFIERS = {
+    "omp_task_collapse_detaches_loop": _omp_task_collapse,
+    "lfric_loop_bound_child_recreated": _lfric_bound_identity,
     "omp_loop_reprod_symbols_before_validate": _omp_loop_reprod,
     "array_reduction_increment_tmp_var_left_behind": _reduction_increment,
     "lfric_cold_tree_queries_create_symbols": _lfric_cold_tree,
